@@ -8,6 +8,7 @@ import (
 	"encoding/binary"
 	"errors"
 	"fmt"
+	"io"
 	"net"
 	"time"
 
@@ -206,11 +207,9 @@ func (c *Conn) waitCloseHandshake() error {
 	}
 	defer c.readMu.unlock()
 
-	for i := int64(0); i < c.msgReader.payloadLength; i++ {
-		_, err := c.br.ReadByte()
-		if err != nil {
-			return err
-		}
+	err = c.discardFramePayload(ctx, c.msgReader.payloadLength)
+	if err != nil {
+		return err
 	}
 
 	for {
@@ -219,13 +218,40 @@ func (c *Conn) waitCloseHandshake() error {
 			return err
 		}
 
-		for i := int64(0); i < h.payloadLength; i++ {
-			_, err := c.br.ReadByte()
-			if err != nil {
-				return err
-			}
+		err = c.discardFramePayload(ctx, h.payloadLength)
+		if err != nil {
+			return err
 		}
 	}
+}
+
+// discardFramePayload discards n bytes of frame payload. Like every other
+// read from the connection it is bounded by ctx.
+func (c *Conn) discardFramePayload(ctx context.Context, n int64) error {
+	select {
+	case <-c.closed:
+		return net.ErrClosed
+	case c.readTimeout <- ctx:
+	}
+
+	_, err := io.CopyN(io.Discard, c.br, n)
+	if err != nil {
+		select {
+		case <-c.closed:
+			return net.ErrClosed
+		case <-ctx.Done():
+			return ctx.Err()
+		default:
+			return fmt.Errorf("failed to discard frame payload: %w", err)
+		}
+	}
+
+	select {
+	case <-c.closed:
+		return net.ErrClosed
+	case c.readTimeout <- context.Background():
+	}
+	return nil
 }
 
 func (c *Conn) waitGoroutines() error {
